@@ -498,8 +498,15 @@ fn abuild_rec<'a>(spec: &'a Spec, ctl: &'a Arc<ACtl>, next_id: &'a mut u16, base
                     *base = Some(b);
                 }
                 let outer = base.as_ref().unwrap().join(format!("n{}", id));
-                let dir = outer.join("root");
-                std::fs::create_dir_all(&dir).map_err(|e| e.to_string())?;
+                let (name, via) = crate::stack::phys_root_variant(ctl.order_seed, id);
+                let real = outer.join(&name);
+                std::fs::create_dir_all(&real).map_err(|e| e.to_string())?;
+                let dir = if via {
+                    std::fs::create_dir_all(outer.join("via")).map_err(|e| e.to_string())?;
+                    outer.join("via").join("..").join(&name)
+                } else {
+                    real
+                };
                 for (name, bytes) in SENTINELS.iter() {
                     std::fs::write(outer.join(name), bytes).map_err(|e| e.to_string())?;
                 }
